@@ -385,11 +385,82 @@ def run(ctx):
     #     its own connection only — the addressee never sees bytes that do not decode, and stays connected
     if si == 0:
         bus_forwarding(ctx, rng, 40 if quick else 400)
+        hostile_names_through_bus(ctx)
 
     # F. memory, sampled
     if si == 0:
         memory_samples(ctx, msgs, rng)
     return finish(ctx)
+
+
+class CpuBudgetExceeded(BaseException):
+    pass
+
+
+class cpu_guard:
+    """CPU-time limit (ITIMER_VIRTUAL: processor time of this process, so machine load does not matter) around one
+    operation.  The step meter cannot see work done inside C primitives - a regular expression that backtracks
+    exponentially on a hostile name, say - but the processor time shows it; the limit is some four orders of
+    magnitude above what these operations take."""
+
+    def __init__(self, seconds):
+        self.seconds = seconds
+        self.fired = False
+
+    def _handler(self, signum, frame):
+        self.fired = True
+        raise CpuBudgetExceeded()
+
+    def __enter__(self):
+        import signal
+        self._old = signal.signal(signal.SIGVTALRM, self._handler)
+        signal.setitimer(signal.ITIMER_VIRTUAL, self.seconds)
+        return self
+
+    def __exit__(self, et, ev, tb):
+        import signal
+        signal.setitimer(signal.ITIMER_VIRTUAL, 0)
+        signal.signal(signal.SIGVTALRM, self._old)
+        return et is CpuBudgetExceeded
+
+
+def hostile_names_through_bus(ctx):
+    """Names in header fields are part of the hostile input too, and the bus looks at them when it passes a message
+    on: long runs of legal characters with one illegal character at the end (the shape on which a backtracking pattern
+    explodes), for every header field that holds a name."""
+    from harness import busnet
+    net = busnet.Net()
+    victim = net.raw_client()
+    attacker = net.raw_client()
+    if not victim.unique or not attacker.unique:
+        return
+    for n in (16, 24, 32, 64, 200):
+        run = 'a' * n
+        variants = [('path', '/' + run + '!'), ('path', '/' + '/'.join(['ab'] * (n // 3)) + '~'), ('interface', 'a.' + run + '!'),
+                    ('interface', '.'.join(['ab'] * (n // 3)) + '-'), ('member', run + '!'), ('destination', 'a.' + run + '!'),
+                    ('sender', ':1.' + run + '!'), ('error_name', 'a.' + run + '!'), ('path', '/' + run + '/' + run + '//')]
+        for field, value in variants:
+            mtype = RM.ERROR if field == 'error_name' else RM.SIGNAL
+            fields = {'path': '/a', 'member': 'M', 'interface': 'a.b', 'destination': victim.unique}
+            if mtype == RM.ERROR:
+                fields = {'reply_serial': 5, 'error_name': 'a.b', 'destination': victim.unique}
+            fields[field] = value
+            raw = RM.build(mtype, 60, fields, 's', ['x'])
+            ctx.count('evaluations')
+            ctx.count('hostile_names_through_bus')
+            if attacker.server.lost or attacker.closed_by_bus:
+                net.clients.remove(attacker)
+                attacker = net.raw_client()
+            g = cpu_guard(8.0)
+            with g:
+                attacker.send_raw(raw)
+            if g.fired:
+                ctx.report('cpu-time-exceeded', 'the bus spent more than %.0f s of processor time on a %d-byte message whose '
+                           '%s field is %d legal characters and one illegal one' % (g.seconds, len(raw), field, n),
+                           {'field': field, 'value': value, 'bytes': raw}, {'kind': 'hostile-names'})
+                return
+            victim.take()
+    ctx.distinct('nontrivial_cases', ('hostile-names',))
 
 
 def bus_forwarding(ctx, rng, per_message):
